@@ -112,11 +112,11 @@ func statePkgRule(w *World, r *Result, only func(rel string) bool) int {
 				case *ast.CallExpr:
 					fn := calleeOf(info, v)
 					// passed to a module function: shares storage
-					for _, a := range v.Args {
+					for ai, a := range v.Args {
 						if id := identOf(a); id != nil && info.Uses[id] == types.Object(g.obj) {
 							switch g.obj.Type().Underlying().(type) {
 							case *types.Map, *types.Slice, *types.Pointer:
-								if fn != nil && w.Funcs[fn] != nil {
+								if fn != nil && w.Funcs[fn] != nil && !paramReadOnly(w, w.Funcs[fn], ai, 0) {
 									why = "it is passed to " + fn.Name() + " at " + w.Pos(v.Pos()) + " in " + fi.Name + " (maps, slices and pointers share their storage with the callee)"
 								}
 							}
@@ -161,4 +161,145 @@ func statePkgRule(w *World, r *Result, only func(rel string) bool) int {
 		}
 	}
 	return n
+}
+
+
+// paramReadOnly: the module function fi only reads through its i-th parameter: the parameter is never the root of an
+// assigned or stepped expression, never aliased (assigned to another variable, stored, returned, captured by a
+// closure), only passed on to module functions that are read-only in turn, and the methods called on it are those
+// of a standard-library type documented as safe for concurrent use without mutation (*regexp.Regexp, except Longest).
+func paramReadOnly(w *World, fi *FuncInfo, i int, depth int) bool {
+	if fi == nil || fi.Decl.Body == nil || depth > 2 {
+		return false
+	}
+	info := fi.Pkg.TypesInfo
+	var pobj types.Object
+	k := 0
+	for _, f := range fi.Decl.Type.Params.List {
+		for _, nm := range f.Names {
+			if k == i {
+				pobj = info.Defs[nm]
+			}
+			k++
+		}
+	}
+	if pobj == nil {
+		return false
+	}
+	isRegexp := pobj.Type().String() == "*regexp.Regexp"
+	ok := true
+	// parent map to classify each use
+	parent := map[ast.Node]ast.Node{}
+	var stack []ast.Node
+	ast.Inspect(fi.Decl.Body, func(x ast.Node) bool {
+		if x == nil {
+			stack = stack[:len(stack)-1]
+			return false
+		}
+		if len(stack) > 0 {
+			parent[x] = stack[len(stack)-1]
+		}
+		stack = append(stack, x)
+		return true
+	})
+	ast.Inspect(fi.Decl.Body, func(x ast.Node) bool {
+		if _, isLit := x.(*ast.FuncLit); isLit {
+			// captured by a closure: give up if it is mentioned inside
+			if usesObj(info, x, pobj) {
+				ok = false
+			}
+			return false
+		}
+		id, isID := x.(*ast.Ident)
+		if !isID || info.Uses[id] != pobj {
+			return true
+		}
+		// climb through selectors / indexes / parens / stars: the expression rooted at the parameter
+		var e ast.Node = id
+		for {
+			p := parent[e]
+			switch pv := p.(type) {
+			case *ast.ParenExpr, *ast.StarExpr:
+				e = p
+				continue
+			case *ast.SelectorExpr:
+				if pv.X == e {
+					e = p
+					continue
+				}
+			case *ast.IndexExpr:
+				if pv.X == e {
+					e = p
+					continue
+				}
+			case *ast.SliceExpr:
+				if pv.X == e {
+					e = p
+					continue
+				}
+			}
+			break
+		}
+		switch pv := parent[e].(type) {
+		case *ast.AssignStmt:
+			for _, l := range pv.Lhs {
+				if l == e {
+					if e != ast.Node(id) {
+						ok = false // element or field assigned
+					}
+				}
+			}
+			for _, r := range pv.Rhs {
+				if r == e && e == ast.Node(id) {
+					ok = false // aliased
+				}
+			}
+		case *ast.IncDecStmt:
+			ok = false
+		case *ast.ReturnStmt, *ast.CompositeLit, *ast.KeyValueExpr, *ast.UnaryExpr:
+			if e == ast.Node(id) {
+				ok = false // escapes
+			}
+		case *ast.CallExpr:
+			if pv.Fun == e {
+				// a method called on the parameter
+				if sel, isSel := e.(*ast.SelectorExpr); isSel {
+					if isRegexp && sel.Sel.Name != "Longest" {
+						return true
+					}
+					if mfn := calleeOf(info, pv); mfn != nil && w.Funcs[mfn] != nil {
+						if sig, _ := mfn.Type().(*types.Signature); sig != nil && sig.Recv() != nil {
+							if _, ptr := sig.Recv().Type().(*types.Pointer); !ptr {
+								return true // value receiver: works on a copy
+							}
+						}
+					}
+				}
+				ok = false
+				return true
+			}
+			for j, a := range pv.Args {
+				if a != e {
+					continue
+				}
+				if e != ast.Node(id) {
+					continue // an element or field value is passed, not the shared storage itself
+				}
+				if isBuiltinCall(info, pv, "len") || isBuiltinCall(info, pv, "cap") {
+					continue
+				}
+				cfn := calleeOf(info, pv)
+				if cfn != nil && w.Funcs[cfn] != nil && paramReadOnly(w, w.Funcs[cfn], j, depth+1) {
+					continue
+				}
+				switch fullName(cfn) {
+				case "strings.Join", "slices.Contains", "slices.Index", "slices.ContainsFunc", "slices.IndexFunc", "fmt.Sprintf", "fmt.Sprint", "fmt.Errorf":
+					continue
+				}
+				ok = false
+			}
+		}
+		return true
+	})
+	return ok
 }
